@@ -19,7 +19,7 @@ import common
 from common import Case, Failure, f2x, x2f
 
 PID = 'C15'
-LEAN_TARGETS = ['Nitime.Props.C15', 'Nitime.Props.C15Opts', 'Nitime.Props.C19Rows', 'Nitime.Props.C15Obj']
+LEAN_TARGETS = ['Nitime.Props.C15', 'Nitime.Props.C15Opts', 'Nitime.Props.C19Rows', 'Nitime.Props.C15Obj', 'Nitime.Props.C15Band']
 RULE = ('inputs: units s/ms/us x intervals {whole, decimal, known re-quantising (0.81327 s, 2.3 ms, 1.7 us ...), random} x '
         'non-zero t0 x 1-/2-/3-d data where the analyzer admits it; every TimeSeries-valued analyzer output + spectral/'
         'coherence/correlation/SNR/Granger/event-related array outputs; generated NIfTI volumes (single/multiple files, '
@@ -34,6 +34,10 @@ RULE = ('inputs: units s/ms/us x intervals {whole, decimal, known re-quantising 
         'refused filter design, refused set_input) followed by set_input and reads judged against fresh analyzers and the direct algorithm call, vars() snapshots; '
         'seeds / inputs / event series / runs / coordinate arrays that are views of each other or the same object (row-strided, reversed, transposed-back, '
         'Fortran, duplicated rows), in-place change of one object then re-inspection of the other; '
+        'ROUND 4 (harness/c15_r4.py): three long count-valued recordings per run (2^11 +- 1, 2^12, 2^13 + 1, 2500, 3001, 4097 samples, rotated by the seed) with one 1e9 '
+        'transient per channel, judged by the oracle only against exact integer lag sums / rational moments / definitions by np.fft on the series length / Parseval; '
+        'fourier band edges exactly ON a DFT bin and one ulp to either side (round numbers such as TR 2 s x 200 volumes x 0.01-0.1 Hz, dyadic grids, arbitrary '
+        'lengths; only tie-free configurations) through FilterAnalyzer and time_series_from_file, and as kept-bin masks against the Lean model; '
         'distinct = distinct protocol line; non-trivial = t0 != 0 or unit != s or re-quantising interval')
 ASSUMPTIONS = ['numpy/scipy routines called by the analyzers are taken as the algorithm layer (data fidelity is judged against direct calls of that layer)',
                'nibabel get_fdata() is the reference content of a NIfTI file',
@@ -49,7 +53,11 @@ TRUSTED_EXTRA = ['harness/translate_c15.py gen_analyzer_state (AST extraction of
                  'and decorators of nitime/fmri/io.py into Generated/ReaderLoads.lean; of FFT-type calls into Generated/TransformCalls.lean)',
                  'nibabel: load() returns a new image object per call and an image hands out the array it cached (the two facts the heap model of the reader encodes)',
                  'data fidelity of analyzers (output = algorithm(input.data, Fs)) is checked per run by the python oracle, not proved',
-                 'numpy fancy indexing / np.concatenate / nibabel modelled by their documented semantics (selectVoxels, concatData)']
+                 'numpy fancy indexing / np.concatenate / nibabel modelled by their documented semantics (selectVoxels, concatData)',
+                 'harness/translate_c15.py gen_band_select (AST extraction of the comparisons / index searches of FilterAnalyzer.filtered_fourier and of the product-summing '
+                 'calls of correlation.py with the import that binds their callee into Generated/BandSelect.lean)',
+                 'np.fft.rfftfreq(n) * Fs modelled as (m * (1.0 / n)) * Fs in binary64 (Model/C15Band.binFreq); the code\'s pass band is observed from outside as the '
+                 'DFT of its answer to a unit impulse; long recordings (n > 2000) are judged by the python oracle only, the Lean model does not run at those sizes']
 
 warnings.simplefilter('ignore')
 FACTOR = {'ps': 1, 'ns': 10**3, 'us': 10**6, 'ms': 10**9, 's': 10**12}
@@ -1036,6 +1044,9 @@ def cases(rng, tier, seed):
     # --- round 2: failure histories on one GrangerAnalyzer (object model), seeds that are views of the target
     import c15_r2
     out += c15_r2.r2_cases(rng, tier, seed)
+    # --- round 4: which bins the fourier filter's closed band keeps, edges ON the grid (model op `band`, when the model has it)
+    import c15_r4
+    out += c15_r4.r4_cases(rng, tier, seed)
     return out
 
 
@@ -1973,8 +1984,9 @@ JUDGES = {'fs': judge_fs, 'output': judge_output, 'concat': judge_concat, 'nifti
 def oracle(rng, tier, seed, focus, cases=None):
     fails, n = [], 0
     import c15_r2
+    import c15_r4
     for c in (cases or []):
-        j = JUDGES.get((c.meta or {}).get('op')) or c15_r2.R2_JUDGES.get((c.meta or {}).get('op'))
+        j = JUDGES.get((c.meta or {}).get('op')) or c15_r2.R2_JUDGES.get((c.meta or {}).get('op')) or c15_r4.R4_JUDGES.get((c.meta or {}).get('op'))
         if j:
             n += 1
             fails += j(c)
@@ -2009,6 +2021,11 @@ def oracle(rng, tier, seed, focus, cases=None):
     # round 2: failure paths (L7) and aliasing (L8) on every analyzer class, concatenation and the reader
     r2f, r2stats = c15_r2.r2_oracle(rng, tier, seed)
     fails += r2f
+    # round 4: long recordings with one huge transient (L9 / L10, oracle only), band edges ON the DFT grid (L3)
+    import c15_r4
+    r4f, r4stats = c15_r4.r4_oracle(rng, tier, seed)
+    fails += r4f
+    r2stats = dict(r2stats, r4=r4stats)
     for f in fails:
         f.replay['key'] = f.key
     return fails, {'r2': r2stats, 'judged_cases': n, 'read_histories': nseq, 'spectral_inputs': k, 'history_pairs': npairs, 'history_outputs': nout, 'failed': len(fails), 'focus': len(focus)}
@@ -2027,6 +2044,12 @@ def replay(d):
     elif op in ('failure', 'alias', 'concat-alias', 'reader-failure', 'complex'):
         import c15_r2
         fs = c15_r2.r2_replay(m)
+    elif op in ('large', 'ongrid', 'lopsided', 'in_ts'):
+        import c15_r4
+        fs = c15_r4.r4_replay(m)
+    elif op == 'band':
+        import c15_r4
+        fs = c15_r4.judge_band(c)
     elif op in ('objhist', 'seedrows', 'shiftsrc'):
         import c15_r2
         fs = c15_r2.R2_JUDGES[op](c)
